@@ -135,3 +135,99 @@ def fnv_bits(bitstrs):
             h ^= b
             h = (h * 0x100000001b3) & 0xFFFFFFFFFFFFFFFF
     return "%016x" % h
+
+
+def project_adapt(sc, run):
+    """AdaptScheduleTrace vocabulary: one line per draw. Returns (events, problems)."""
+    from fractions import Fraction
+    lines = []
+    cur = {"ret": None, "adapt": None, "ss": [], "ss_set": []}
+    draws = []
+    for ev in run:
+        k = ev["ev"]
+        if k == "ret":
+            cur["ret"] = ev
+        elif k == "adapt":
+            cur["adapt"] = ev
+        elif k == "ss_advance":
+            cur["ss"].append(ev)
+        elif k == "ss_set":
+            cur["ss_set"].append(ev)
+        elif k == "draw_out":
+            cur["out"] = ev
+            draws.append(cur)
+            cur = {"ret": None, "adapt": None, "ss": [], "ss_set": []}
+    draws = [d for d in draws if d["out"]["res"] == "ok" and d["adapt"] is not None]
+    if not draws:
+        return [], []
+    a0 = draws[0]["adapt"]
+    kind = a0["kind"]
+    num_tune = a0["num_tune"]
+    st = sc.get("settings", {})
+    ao = st.get("adapt_options", {})
+    sss = ao.get("step_size_settings", {})
+    method = sss.get("adapt_options", {}).get("method", "DualAverage")
+    if "mclmc" in sc["preset"]:
+        method = "Fixed"
+    max_step = sss.get("adapt_options", {}).get("dual_average", {}).get("max_step_size", math.pi)
+    if kind == "global":
+        g = Fraction(a0["growth"]).limit_denominator(1 << 20)
+        if float(g) != a0["growth"]:
+            g = Fraction(a0["growth"])
+        reset = {"e": "reset", "kind": kind, "numTune": num_tune, "earlyEnd": a0["early_end"],
+                 "finalWindow": a0["final_window"], "earlyFreq": a0["early_freq"], "mainFreq": a0["main_freq"],
+                 "updFreq": a0["upd_freq"], "gn": g.numerator, "gd": g.denominator}
+    else:
+        reset = {"e": "reset", "kind": kind, "numTune": num_tune, "earlyEnd": 0, "finalWindow": a0["final_window"],
+                 "earlyFreq": 1, "mainFreq": 1, "updFreq": a0["upd_freq"], "gn": 1, "gd": 1}
+    lines.append(reset)
+    # final averaged step size: the one in force when warm-up ends
+    bar_final = None
+    for d in draws:
+        if d["adapt"]["draw"] == max(num_tune - 1, 0):
+            bar_final = sval(d["out"]["stats"], "step_size_bar")
+    for d in draws:
+        a, o = d["adapt"], d["out"]
+        stt = o["stats"]
+        jit = None
+        base = None
+        if d["ss_set"]:
+            jit = d["ss_set"][-1]["jitter"]
+            base = f_from_bits(d["ss_set"][-1]["base"])
+        step = f_from_bits(a["step"])
+        bar_bits = sval(stt, "step_size_bar")
+        bar = f_from_bits(bar_bits) if bar_bits else float("nan")
+        j = jit if jit is not None else 0.0
+        inband = True
+        barsame = True
+        if bar_final is not None:
+            bf = f_from_bits(bar_final)
+            inband = (bf * (1 - j) * (1 - 1e-12) <= step <= bf * (1 + j) * (1 + 1e-12))
+            barsame = (bar_bits == bar_final)
+        stepok = math.isfinite(step) and step > 0
+        # the bound is stated for dual-averaging updates; a (re-)run of the doubling search installs its own result
+        if method == "DualAverage" and not a.get("research", False):
+            stepok = stepok and step <= max_step * (1 + j) * (1 + 1e-12)
+        if d["ret"] is not None:
+            idx, div = d["ret"]["idx"], d["ret"]["div"]
+            good = "t" if ((abs(idx) > 4) if div else (idx != 0)) else "f"
+        else:
+            good = "na"
+        fedcalls = ",".join(x["which"] for x in d["ss"])
+        fedvalok = True
+        for x in d["ss"]:
+            ref = sval(stt, "mean_tree_accept" if x["which"] == "early" else "mean_tree_accept_sym")
+            if ref != x["val"]:
+                fedvalok = False
+        line = {"e": "adapt", "kind": kind, "draw": a["draw"], "branch": a["branch"], "fed": a["fed"],
+                "tid": a["tid"], "tuning": a["tuning"], "ptuning": o["progress"]["tuning"],
+                "stuning": sval(stt, "tuning"), "fedcalls": fedcalls, "fedvalok": fedvalok,
+                "barsame": bool(barsame), "inband": bool(inband), "stepok": bool(stepok), "good": good,
+                "diag": "lowrank" not in sc["preset"],
+                "stepf": step if math.isfinite(step) else None, "barf": bar if math.isfinite(bar) else None}
+        if kind == "global":
+            line.update({"switched": a["switched"], "changed": a["changed"], "research": a["research"],
+                         "fg": a["fg"], "bg": a["bg"], "win": a["win"], "lastUpdate": a["last_update"],
+                         "hasInitial": a["has_initial"]})
+        lines.append(line)
+    return lines, []
